@@ -6,6 +6,7 @@ use crate::gen::*;
 use crate::models::*;
 use crate::prob::*;
 use crate::state::*;
+use crate::twins::{any_model, wrap_any, RowModel};
 use nalgebra::{DMatrix, DVector};
 
 /// increasing; the last ones are legal probabilities within a few f32 ulp of 1 (1 - 5·2^-24, 1 - 2^-24):
@@ -71,13 +72,22 @@ pub fn stats_case<T: Sc>(rng: &mut Rng, idx: usize, thorough: bool) -> FitCase<T
         origin: "stats",
     };
     let threads = if base.flavour.is_par() { 2 } else { 0 };
-    FitCase { base, cfg: LmCfg::default_cfg(), threads }
+    // most fits converge; some are made to give up (patience exhausted, tolerances below machine
+    // precision): a fit that FAILED must never come back with statistics
+    let cfg = match idx % 11 {
+        4 => LmCfg { ftol: 1e-15, xtol: 1e-15, gtol: 1e-15, stepbound: 100.0, patience: 1, scale_diag: true, default: false },
+        9 => LmCfg { ftol: 0.0, xtol: 0.0, gtol: 0.0, stepbound: 100.0, patience: 100, scale_diag: true, default: false },
+        _ => LmCfg::default_cfg(),
+    };
+    FitCase { base, cfg, threads }
 }
 
 pub fn emit_stats_case<T: Sc>(out: &mut Out, fc: &FitCase<T>) {
     let c = &fc.base;
     let delta = c.recipe.n() as i64 - (c.recipe.m() + c.recipe.p()) as i64;
-    out.begin("stats", &format!("{} delta={} profile={}", header_common(c), delta, profile_name()));
+    // one case in four: the solver value has already been used for a fit of the same shape
+    let reuse = out.cases % 4 == 2;
+    out.begin("stats", &format!("{} delta={} profile={} reuse={}", header_common(c), delta, profile_name(), if reuse { 1 } else { 0 }));
     emit_inputs(out, c);
     out.line(&fc.cfg.describe::<T>());
     let probe = Probe::new();
@@ -101,14 +111,63 @@ pub fn emit_stats_case<T: Sc>(out: &mut Out, fc: &FitCase<T>) {
     emit_outputs(out, "impl", prob.as_ref());
     let lm = fc.cfg.build::<T>();
     let threads = fc.threads;
+    // warm-up problem for the reuse cases: same model, shapes and weights, other observations
+    let first: Option<Box<dyn DynP<T>>> = if reuse {
+        let probe1 = Probe::new();
+        let model1 = make_model::<T>(&c.recipe, &c.init, c.built, &probe1);
+        let y1 = c.y.map(|v| v * T::of(1.5) + T::of(0.25));
+        match guarded(|| build_problem(c.flavour, model1, &y1, wv.as_ref(), c.eps)) {
+            Ok(Ok(p)) => Some(p),
+            _ => None,
+        }
+    } else {
+        None
+    };
     let r = with_deadline(20, move || {
+        let run = move || match first {
+            Some(f) => prob.fit_stats_after(f, lm),
+            None => prob.fit_stats(lm),
+        };
         if threads > 0 {
             let pool = rayon::ThreadPoolBuilder::new().num_threads(threads).build().expect("pool");
-            pool.install(|| prob.fit_stats(lm))
+            pool.install(run)
         } else {
-            prob.fit_stats(lm)
+            run()
         }
     });
+    // C06 twin: the unweighted problem whose model rows, derivative rows and observations are scaled
+    let twin: Option<Result<StatsOut<T>, String>> = match &c.w {
+        Some(w) if !c.flavour.is_par() || true => {
+            let m = AnyModel::Dyn(Box::new(RowModel {
+                inner: any_model(&c.recipe, &c.init, c.built),
+                scale: Some(w.clone()),
+                overwrite: vec![],
+                entries: vec![],
+                fail_deriv: None,
+                dentries: vec![],
+                fail_eval: None,
+            }));
+            let mut ys = c.y.clone();
+            for r in 0..ys.nrows() {
+                ys[(r, 0)] = ys[(r, 0)] * w[r];
+            }
+            let fl = c.flavour;
+            let eps = c.eps;
+            let lm2 = fc.cfg.build::<T>();
+            match guarded(|| build_problem(fl, wrap_any(m), &ys, None, eps)) {
+                Ok(Ok(p)) => with_deadline(20, move || {
+                    if threads > 0 {
+                        let pool = rayon::ThreadPoolBuilder::new().num_threads(threads).build().expect("pool");
+                        pool.install(|| p.fit_stats(lm2))
+                    } else {
+                        p.fit_stats(lm2)
+                    }
+                }),
+                _ => None,
+            }
+        }
+        _ => None,
+    };
     match r {
         None => out.line("result hang"),
         Some(Err(m)) => out.line(&format!("result panic {}", m)),
@@ -148,6 +207,25 @@ pub fn emit_stats_case<T: Sc>(out: &mut Out, fc: &FitCase<T>) {
                         Err(m) => out.line(&format!("st band {} panic {}", hex(T::of(*p).f()), m)),
                     }
                 }
+            }
+            match twin {
+                Some(Ok(tw)) => {
+                    out.line(&format!(
+                        "tw result {} term={} evals={} hasstats={}",
+                        if tw.fit.ok { "ok" } else { "err" },
+                        tw.fit.termination,
+                        tw.fit.evaluations,
+                        if tw.stats.is_some() { 1 } else { 0 }
+                    ));
+                    out.line(&format!("tw params {}", vec_str(&tw.fit.problem.params())));
+                    out.line(&opt_mat("tw coef", &tw.fit.problem.coef()));
+                    if let Some(st) = tw.stats {
+                        out.line(&format!("tw cov {}", mat_str(&st.covariance)));
+                        out.line(&format!("tw chi2 {}", hex(st.reduced_chi2.f())));
+                    }
+                }
+                Some(Err(m)) => out.line(&format!("tw panic {}", m)),
+                None => {}
             }
         }
     }
